@@ -1,5 +1,7 @@
 package main
 
+import "sync"
+
 // bigUnitLen concretizes ceil(bitlen(abs)/unit) of a non-negative big term (forks over the
 // feasible values): unit 8 = byte length, unit 64 = word length.
 func (ex *Exec) bigUnitLen(st *State, abs *Term, unit int) int {
@@ -33,4 +35,43 @@ func (ex *Exec) bigUnitLen(st *State, abs *Term, unit int) int {
 		}
 	}
 	return maxUnits
+}
+
+// Abstract lengths of unbounded big values (int-mode): the word length and the bit length are
+// functions of the value, so the same value term always gets the same variable.
+var (
+	absLenMu   sync.Mutex
+	bitsLenMap = map[int]*Term{}
+	bitLenMap  = map[int]*Term{}
+)
+
+func bitsLenVar(a *Term) *Term {
+	absLenMu.Lock()
+	defer absLenMu.Unlock()
+	if n, ok := bitsLenMap[a.ID]; ok {
+		return n
+	}
+	n := NewVar("bitsLen", IntSort)
+	n.Lo = bigZero
+	bitsLenMap[a.ID] = n
+	return n
+}
+
+func bitLenVar(a *Term) *Term {
+	absLenMu.Lock()
+	defer absLenMu.Unlock()
+	if n, ok := bitLenMap[a.ID]; ok {
+		return n
+	}
+	n := NewVar("bitLen", IntSort)
+	n.Lo = bigZero
+	bitLenMap[a.ID] = n
+	return n
+}
+
+// bindBitsLen fixes the abstract word length of a value term (zzBigWithWords).
+func bindBitsLen(a *Term, n *Term) {
+	absLenMu.Lock()
+	defer absLenMu.Unlock()
+	bitsLenMap[a.ID] = n
 }
